@@ -13,7 +13,7 @@ def strip(line):
 
 
 def run(ctx):
-    C.prepare(ctx, ['C12', 'C01_mvp4', 'C05_mvp4'], need_gen_oracle=False)
+    C.prepare(ctx, ['C12', 'C01_mvp4', 'C05_mvp4', 'C01_mvp5', 'C05_mvp5'], need_gen_oracle=False)
     ok_mvp, out = C.ensure_oracle(ctx, 'mvp', ['theories/Mvp/Mvp12.vo', 'theories/Mvp/Mvp3.vo', 'theories/Mvp/Mvp4.vo', 'theories/Mvp/Mvp5.vo', 'theories/Isa/Refine.vo'], ['Mvp', 'Isa', 'Gen', 'Base', 'Comp'])
     if not ok_mvp:
         ctx.broken.append({'file': 'coq/theories/Mvp/Mvp12.v', 'line': None, 'lemma': 'extraction of the MVP-1/2 cycle model (depends on the regenerated opcode model)', 'error': out[-1500:]})
@@ -134,7 +134,7 @@ def run(ctx):
             'samples': [slines[i] for i in rng.sample(range(len(slines)), 3)],
             'programs': len(allp), 'model_mismatches_mvp12': len(mism), 'model_mismatches_mvp3': len(tie3), 'mvp2_slower': len(slower),
             'lower_bound_violations': len(lows), 'value_independence_pairs_checked': pairs_checked, 'value_dependence_found': len(dep),
-            'theorems': sum([C.theorem_names(C.COQ + '/theories/Props/%s.v' % pf) for pf in ['C12', 'C01_mvp4', 'C05_mvp4']], []),
+            'theorems': sum([C.theorem_names(C.COQ + '/theories/Props/%s.v' % pf) for pf in ['C12', 'C01_mvp4', 'C05_mvp4', 'C01_mvp5', 'C05_mvp5']], []),
         }
     C.report_broken(ctx, found)
     cov.setdefault('evaluations', 0)
@@ -143,5 +143,5 @@ def run(ctx):
     cov.setdefault('samples', ['(harness did not build)'])
     return C.finish(ctx, 'proof', cov,
                     ['MVP-1/2 theorems are about the faithful model Mvp/Mvp12.v, tied to the code by exact equality of the returned triple on every generated program',
-                     'MVP-3 (Props/C05_mvp3.v: cost3) and MVP-4 (Props/C01_mvp4.v, C05_mvp4.v: the count is a function of the program and the path / the (pc, address) events, at least one per executed instruction, independent of operand values; register-only programs and programs whose stores hit in L1D) have theorems about their faithful models; for MVP-5..8 no theorem about the cycle count is claimed: bounds and value independence are checked per run'],
-                    'make -C /verif/coq theories/Props/C12.vo theories/Props/C01_mvp4.vo theories/Props/C05_mvp4.vo (coqc 8.16.1)')
+                     'MVP-3 (Props/C05_mvp3.v: cost3) and MVP-4 / MVP-5 (Props/C01_mvp4.v, C05_mvp4.v, C01_mvp5.v, C05_mvp5.v: the count is a function of the program and the path / the (pc, address) events, at least one per executed instruction, independent of operand values; register-only programs and programs whose stores hit in L1D) have theorems about their faithful models; for MVP-6.x..8 no theorem about the cycle count is claimed: bounds and value independence are checked per run'],
+                    'make -C /verif/coq theories/Props/C12.vo theories/Props/C01_mvp4.vo theories/Props/C05_mvp4.vo theories/Props/C01_mvp5.vo theories/Props/C05_mvp5.vo (coqc 8.16.1)')
